@@ -138,6 +138,12 @@ func (in *IDToken) Validate(cfg openidconfig.Config, cookie *LoginCookie, jwks *
 		return err
 	}
 
+	// jwt.Validate regards an "exp" of zero (the epoch) as absent and skips the expiry check,
+	// while the required-claim check is satisfied by its mere presence.
+	if in.Expiration().Unix() <= 0 {
+		return fmt.Errorf("'exp' not satisfied: not a valid expiration time")
+	}
+
 	// OpenID Connect Core 3.1.3.7, step 3.
 	//  The `aud` (audience) Claim MAY contain an array with more than one element.
 	//  The ID Token MUST be rejected if the ID Token [...] contains additional audiences not trusted by the Client.
